@@ -18,7 +18,9 @@ RESPONSES = [("y", "num"), ("z", "num"), ("f", "cat"), ("c", "cat"), ("o", "cat"
              ("f[nolevel]", "level"), ("f['zzz']", "level"), ("o['absent']", "level"), ("g[t]", "level"),
              ("I(y * 2)", "expr"), ("{y + 1}", "expr"), ("center(y)", "call"), ("C(k)", "catcall"),
              ("prop(succ, n_trials)", "prop"), ("p(succ, 30)", "prop"), ("proportion(succ, n_trials)", "prop"),
-             ("y:x", "bad"), ("y + z", "bad"), ("(y|g)", "bad"), ("1", "bad"), ("offset(y)", "bad")]
+             ("y:x", "bad"), ("y + z", "bad"), ("(y|g)", "bad"), ("1", "bad"), ("offset(y)", "bad"),
+             ("f['a']:f['b']", "bad"), ("f[a]:f[b]", "bad"), ("f['a']:f", "bad"), ("f:f['b']", "bad"),
+             ("o['lo']:o['mid']", "bad"), ("f['a']:g['p']", "bad")]
 
 
 def gen(rng, tier):
